@@ -1,5 +1,5 @@
 (* Observers of the repaired directed model agree with the spec after every valid history (C01, C03), and the pinned model does not (C03_refuted). *)
-From BG Require Import Base DirectedModel DirectedProofs DirectedSpec.
+From BG Require Import Base DirectedModel DirectedProofs DirectedSpec DirectedRefine.
 Local Open Scope Z_scope.
 
 Section Obs.
@@ -59,7 +59,7 @@ Proof.
     - simpl. constructor; auto. rewrite <- smem_In_keys. congruence.
     - intros e. unfold smem; simpl. destruct (edge_eqb_spec (s, d) e) as [<-|]; [simpl; auto|apply R]. }
   assert (SN : forall a s d l, sn (s_add a s d l) = sn a) by (intros; unfold s_add; destruct smem; auto).
-  intros SI Vd. destruct o as [s d l f|x y l f|s d| |v| |n|s d l f]; simpl in Vd |- *.
+  intros SI Vd. destruct o as [s d l f|x y l f|s d| |v| |n|s d l f|]; simpl in Vd |- *.
   - apply andb_prop in Vd as [Vd _]. apply andb_prop in Vd as [Hs Hd]. apply Nat.ltb_lt in Hs, Hd. auto.
   - apply andb_prop in Vd as [Vd _]. apply andb_prop in Vd as [Hs Hd]. apply Nat.ltb_lt in Hs, Hd. apply ADD; auto; rewrite SN; auto.
   - destruct SI as [ND R]. split; unfold s_remove; cbn [se sn].
@@ -79,6 +79,7 @@ Proof.
         destruct (edge_eqb k (s, d)); simpl; auto. constructor; auto. intros H. apply H1.
         apply in_map_iff in H as [[k' v'] [E H]]. simpl in E; subst. apply filter_In in H as [H _]. apply in_map_iff. exists (k, v'); auto.
     + intros e. unfold smem; cbn [se]. rewrite lfind_lset. destruct (edge_eqb_spec (s, d) e) as [<-|]; [intros _; apply R; auto|apply R].
+  - auto.
 Qed.
 Lemma SInv_run ops : forall a, SInv a -> valid_history a ops = true -> SInv (spec_run a ops).
 Proof. induction ops as [|o ops IH]; intros a SI Vd; simpl in *; auto. apply andb_prop in Vd as [V1 V2]. apply IH; auto using SInv_step. Qed.
